@@ -33,7 +33,7 @@ class Grid(Family):
         if len(xs) != L or len(zs) != L:
             return
         for v in list(xs) + list(zs):
-            ctx.claim("finite", ctx.is_finite(v), info)
+            ctx.claim("finite-values", ctx.is_finite(v), info)
         for k in range(m):
             ctx.claim("nth-abscissa-is-original", ctx.same(xs[k * n], X[k]), {"k": k})
         for k in range(m - 1):
